@@ -111,10 +111,20 @@ type World struct {
 	PendingM   int
 	enteredAt  int64
 	sealed     bool
+	// every Out belongs to an event (index into sc.Events); state dumps are extra lines of the event
+	evOf       []int
+	isState    []bool
+	nEv        int    // events started so far
+	stateEvery int    // > 0: the machine's whole state is compared after every stateEvery-th event (and at the end)
+	DumpErr    string // the real machine's state could not be read (harness failure)
 }
 
+// stateEveryDefault: every history compares the whole private state of each machine with the model's
+// at its end and after every stateEveryDefault-th event.
+var stateEveryDefault = 32
+
 func NewWorld(sc *Scenario) *World {
-	w := &World{sc: sc, isByz: map[int]bool{}, nodeOf: map[int]int{}, decisions: map[uint64]decision{},
+	w := &World{sc: sc, stateEvery: stateEveryDefault, isByz: map[int]bool{}, nodeOf: map[int]int{}, decisions: map[uint64]decision{},
 		violSeen: map[string]bool{}, Admissible: true, hits: map[string]int{}}
 	for _, b := range sc.Byz {
 		w.isByz[b] = true
@@ -136,7 +146,7 @@ func (w *World) violate(sig, what string) {
 		return
 	}
 	w.violSeen[sig] = true
-	w.Viols = append(w.Viols, Viol{Sig: sig, What: what, At: len(w.Outs)})
+	w.Viols = append(w.Viols, Viol{Sig: sig, What: what, At: max(w.nEv-1, 0)})
 }
 
 func (w *World) inadmissible(why string) {
@@ -144,6 +154,28 @@ func (w *World) inadmissible(why string) {
 		w.Admissible = false
 		w.Why = why
 	}
+}
+
+// push records the answer expected from the Lean driver for the line just appended to w.Lines.
+func (w *World) push(out string, acts []Act, isState bool) {
+	w.Outs = append(w.Outs, out)
+	w.Acts = append(w.Acts, acts)
+	w.evOf = append(w.evOf, max(w.nEv-1, 0))
+	w.isState = append(w.isState, isState)
+}
+
+// pushState asks the model for machine m's whole state and records the real machine's.
+func (w *World) pushState(m int) {
+	out, err := dumpState(w.sms[m])
+	if err != nil {
+		if w.DumpErr == "" {
+			w.DumpErr = err.Error()
+		}
+		return
+	}
+	w.Lines = append(w.Lines, fmt.Sprintf("state %d", m))
+	w.push(out, nil, true)
+	w.hit("state-compared")
 }
 
 // weight of the distinct senders of votes (kind,h,r,id) known to the view, as big integers so
@@ -173,6 +205,7 @@ func (w *World) isQuorum(wt *big.Int, h uint64) bool {
 func (w *World) Do(m int, in In) []Act {
 	v := w.views[m]
 	disc := w.sc.Disciplined
+	w.nEv++
 	if in.Kind == "restart" {
 		// crash + restart: a fresh state machine at the validator's current height (what node start-up
 		// does), value source continuing where the height began (replay-stable Application.Value, the
@@ -189,8 +222,7 @@ func (w *World) Do(m int, in In) []Act {
 			w.inadmissible("restart at a height that is not the validator's")
 		}
 		w.Lines = append(w.Lines, newLine(m, &w.sc.Cfg, spec))
-		w.Outs = append(w.Outs, "ok")
-		w.Acts = append(w.Acts, nil)
+		w.push("ok", nil, false)
 		w.hit("restart")
 		return nil
 	}
@@ -299,11 +331,20 @@ func (w *World) Do(m int, in In) []Act {
 		out = "panic"
 		w.violate("state-machine-panics", fmt.Sprintf("machine %d input %s: %v\n%s", m, in.Line(m), err, stack))
 	}
-	w.Outs = append(w.Outs, out)
-	w.Acts = append(w.Acts, acts)
 	w.Lines = append(w.Lines, in.Line(m))
+	w.push(out, acts, false)
+	if w.stateEvery > 0 && w.nEv%w.stateEvery == 0 && !panicked {
+		w.pushState(m)
+	}
 	if in.Kind == "start" {
 		v.started = true
+	}
+	// --- the WAL entry of the input comes before everything the input makes leave the node: the driver
+	// flushes the WAL right before a broadcast / commit, so an entry behind it is not durable when the
+	// message is out (Lean: wal_entry_precedes_every_broadcast_and_commit — for every state and input,
+	// hence evaluated on undisciplined histories too) ---
+	if !panicked {
+		w.checkWalFirst(m, in, v.height, acts, out)
 	}
 	// --- a Commit must be the last action of a returned list (driver.execute returns at the first
 	// Commit and drops the rest; Lean: step_commit_last) ---
@@ -363,6 +404,7 @@ func (w *World) Do(m int, in In) []Act {
 				w.hit(a.Kind + "-nil")
 				if !pc && v.lockSet {
 					w.hit("prevote-nil-while-locked")
+					w.hitLockBlocks(v, a)
 				}
 				break
 			}
@@ -380,6 +422,9 @@ func (w *World) Do(m int, in In) []Act {
 				}
 				if v.lockSet && v.lockVal != a.Value {
 					w.hit("relock-on-different-value")
+				}
+				if v.lockSet && v.lockVal == a.Value && a.R > v.lockRound {
+					w.hit("relock-on-same-value-in-later-round")
 				}
 				v.lockSet, v.lockVal, v.lockRound = true, a.Value, a.R
 				w.hit("lock")
@@ -402,6 +447,60 @@ func (w *World) Do(m int, in In) []Act {
 		}
 	}
 	return acts
+}
+
+// walStrs: the canonical text of the WAL entries of an input's parts (`walEntriesOf` in Lean).
+func walStrs(in In, height uint64) []string {
+	vote := func(x In) string { return fmt.Sprintf("%d:%d:%d:%s", x.H, x.R, x.Sender, x.idStr()) }
+	prop := func(x In) string { return fmt.Sprintf("W:P:%d:%d:%d:%d:%d", x.H, x.R, x.Sender, x.VR, x.Value) }
+	switch in.Kind {
+	case "start":
+		return []string{fmt.Sprintf("W:S:%d", height)}
+	case "prop":
+		return []string{prop(in)}
+	case "pv":
+		return []string{"W:V:" + vote(in)}
+	case "pc":
+		return []string{"W:C:" + vote(in)}
+	case "to":
+		return []string{fmt.Sprintf("W:T:%d:%d:%d", in.Step, in.H, in.R)}
+	case "sync":
+		out := []string{prop(in)}
+		for _, x := range in.Votes {
+			out = append(out, "W:C:"+vote(x))
+		}
+		return out
+	}
+	return nil
+}
+
+// checkWalFirst walks the list as driver.execute does: every action that requires a WAL flush
+// (broadcasts, Commit) must come after the WriteWAL entry of the input that caused it.
+func (w *World) checkWalFirst(m int, in In, height uint64, acts []Act, out string) {
+	want := walStrs(in, height)
+	seen := false
+	for _, a := range acts {
+		switch a.Kind {
+		case "W":
+			for _, s := range want {
+				if a.Str == s {
+					seen = true
+				}
+			}
+		case "BP", "BV", "BC", "C":
+			if !seen {
+				what := "broadcast"
+				if a.Kind == "C" {
+					what = "commit"
+				}
+				w.violate(what+"-before-the-wal-entry-of-its-cause", fmt.Sprintf("machine %d, input %q returned [%s]: %s is not preceded by the WriteWAL entry of the input "+
+					"(the driver flushes the WAL right before it: the cause is not durable when the effect is visible; after a crash the replayed machine does not know why it acted)",
+					m, in.Line(m), out, a.Str))
+				return
+			}
+			w.hit("flush-after-wal-entry-of-cause")
+		}
+	}
 }
 
 func (w *World) hasValidProposal(v *view, h uint64, r int, val uint64) bool {
@@ -441,6 +540,20 @@ func (w *World) checkPrevote(v *view, a Act) {
 		w.hit("unlock-via-later-polka(L28)")
 	} else {
 		w.violate("prevote-against-lock", fmt.Sprintf("node %d locked on %d in round %d broadcast %s without a later polka", v.node, v.lockVal, v.lockRound, a.Str))
+	}
+}
+
+// hitLockBlocks counts the situation the re-lock bookkeeping exists for: the validator prevoted nil
+// although it holds a proposal (w, vr) of the round with a polka for w in vr — because its lock is on
+// another value in a round AFTER vr.
+func (w *World) hitLockBlocks(v *view, a Act) {
+	p := w.sc.Cfg.proposerIdx(a.H, a.R)
+	for k := range v.props {
+		if k.h == a.H && k.r == a.R && k.sender == p && k.val != v.lockVal && k.vr >= 0 && k.vr < a.R && k.vr < v.lockRound && w.sc.Cfg.valid(k.val) &&
+			w.isQuorum(w.weight(v, false, a.H, k.vr, false, k.val), a.H) {
+			w.hit("lock-in-later-round-blocks-older-polka(L29 false)")
+			return
+		}
 	}
 }
 
@@ -500,7 +613,10 @@ func (w *World) Seal() {
 		out := "panic"
 		_, _, _ = lib.Try(func() error { out = fmt.Sprint(uint64(sm.Height())); return nil })
 		w.Lines = append(w.Lines, fmt.Sprintf("height %d", i))
-		w.Outs = append(w.Outs, out)
+		w.push(out, nil, true)
+		if w.stateEvery > 0 && out != "panic" {
+			w.pushState(i)
+		}
 	}
 }
 
